@@ -2,7 +2,7 @@ from typing import Any, cast
 
 from xdsl.context import Context
 from xdsl.dialects import pdl_interp
-from xdsl.dialects.builtin import SymbolRefAttr
+from xdsl.dialects.builtin import ModuleOp, SymbolRefAttr
 from xdsl.dialects.pdl import RangeType, ValueType
 from xdsl.interpreter import (
     Interpreter,
@@ -521,7 +521,15 @@ class PDLInterpFunctions(InterpreterFunctions):
     def call_func(
         self, interpreter: Interpreter, op: pdl_interp.FuncOp, args: tuple[Any, ...]
     ):
-        if op.sym_name.data == "matcher":
+        # The rewriter functions live in the nested `rewriters` module and are
+        # named after their patterns: one of them may be called "matcher" too.
+        parent = op.parent_op()
+        is_rewriter = (
+            isinstance(parent, ModuleOp)
+            and parent.sym_name is not None
+            and parent.sym_name.data == "rewriters"
+        )
+        if op.sym_name.data == "matcher" and not is_rewriter:
             assert len(args) == 1
             root_op = args[0]
             assert isinstance(root_op, Operation)
